@@ -255,7 +255,7 @@ pub fn run(ctx: &mut Ctx) {
         x bodies of 32 KiB +-2, 64 KiB, 300 KiB; each file decoded with and without the chunk through Reader (read_info, frames, finish) and through StreamingDecoder vs the Lean framing model; \
         non-trivial: all (each carries a chunk under test); distinct = hash of file".into();
     let mut rng = ctx.rng.fork(1);
-    let n = ctx.n(40, 600);
+    let n = ctx.n(160, 600);
     let mut jobs: Vec<(String, Vec<u8>, Vec<u8>, Option<String>, Option<String>)> = vec![];
     for i in 0..n {
         let mut r = rng.fork(i as u64);
